@@ -53,6 +53,22 @@ func (Implementation) Dger(m, n int, alpha float64, x []float64, incX int, y []f
 	if alpha == 0 {
 		return
 	}
+	if incX < 0 || incY < 0 {
+		// The assembly kernel does not handle negative increments.
+		var kx, ky int
+		if incX < 0 {
+			kx = -(m - 1) * incX
+		}
+		if incY < 0 {
+			ky = -(n - 1) * incY
+		}
+		ix := kx
+		for i := 0; i < m; i++ {
+			f64.AxpyInc(alpha*x[ix], y, a[i*lda:i*lda+n], uintptr(n), uintptr(incY), 1, uintptr(ky), 0)
+			ix += incX
+		}
+		return
+	}
 	f64.Ger(uintptr(m), uintptr(n),
 		alpha,
 		x, uintptr(incX),
